@@ -12,6 +12,12 @@ package main
 // otherwise the execution with the most overlapping calls.  Verdict 2 iff that recorded
 // history is not linearizable — never a timing judgement.
 //
+// Ownership of slices: arguments of Append come from a buffer the calling goroutine reuses
+// right after the call, results of Keys() are overwritten by the caller, and a final
+// Slice()/Keys() by goroutine 0 closes every history (exec.go: scratch, epilogue) — a container
+// that keeps a reference to what it was given or handed out yields a non-linearizable history;
+// one that writes into the caller's buffer is reported directly (caller-memory-written).
+//
 // The Go runtime aborts the whole process with "fatal error: concurrent map ..." when it
 // detects unsynchronised map access (what a weakened lock mode produces).  main() therefore
 // re-executes itself as a child and turns such an abort into a Direct verdict-2 case.
@@ -59,10 +65,16 @@ func runProgram(ctx *core.Ctx, p Program) {
 	}
 	_ = os.WriteFile(progressFile(ctx.Out), hx.MustJSON(p), 0o644)
 
-	var best, bad []Call
-	bestOv, flagged, execs := -1, 0, 0
-	ok := runBatch(&p, reps, func(h []Call) {
+	var best, bad, aliased []Call
+	bestOv, flagged, execs, aliasExecs := -1, 0, 0, 0
+	ok := runBatch(&p, reps, func(h []Call, alias bool) {
 		execs++
+		if alias {
+			aliasExecs++
+			if aliased == nil || len(h) < len(aliased) {
+				aliased = h
+			}
+		}
 		if !screen(p.Kind, h) {
 			flagged++
 			if bad == nil || len(h) < len(bad) {
@@ -103,6 +115,15 @@ func runProgram(ctx *core.Ctx, p Program) {
 	h := best
 	if bad != nil {
 		h = bad
+	} else if aliased != nil {
+		// no recorded history is wrong, but the container wrote into (or changed) a slice that
+		// belongs to the caller: not what an ordinary slice / map does
+		c.Direct = 2
+		c.Note = fmt.Sprintf("the container modified a slice owned by the caller (argument of Append or its spare capacity) in %d of %d executions", aliasExecs, execs)
+		c.Class += "/caller-memory-written"
+		c.Observed = map[string]any{"history": textHistory(aliased), "executions": execs}
+		ctx.Sink.Add(c)
+		return
 	}
 	ov := overlap(h)
 	c.Trivial = ov == 0
